@@ -12,21 +12,33 @@ Contents
   C  `InvL` is carried over to a table with the same control bytes and the same keys in bucket order
      (`eq_invL_transfer`); `clone` (`eq_clone_invL`) and `clone_from` into any target
      (`eq_cloneFrom_ctrl`, `eq_cloneFrom_invL`).
-  D  `==`: `eq_eqLoop_lawful`, `eq_spec`, finite-map form `eq_finmap_iff`, `eq_spec_finmap`, `eq_symm`,
-     `eq_clone`.
-  E  `clone_from` paths (`eq_cloneFrom_paths`), value-semantics remark (`eq_independent`).
-  F  non-vacuity (`decide +kernel`).
+  D  `==`: `eq_eqLoop_lawful`, `eq_spec`, finite-map form `eq_finmap_iff`, `eq_spec_finmap`, `eq_symm`;
+     `PartialEq for HashSet` (`Set.setEq`): `eq_setEq_spec`, `eq_setEq_symm`;
+     a clone compares equal to its source: `eq_of_same_kv`, `eq_clone`, `eq_cloneFrom`.
+  E  `clone_from` paths (`eq_cloneFrom_unalloc`, `eq_cfBlockEvs_cases`), `HashTable::clone_from`
+     (`Table.cloneFrom` = clone, drop old, move: `eq_tableCloneFrom_spec`, `eq_tableCloneFrom_invL`),
+     value-semantics remark (`eq_independent`).
+  F  non-vacuity (`decide +kernel`): `eqEx_tables`, `eqEx_compare`, `eqEx_clone`.
+
+Hypotheses: `CfgOk cfg` throughout; `Lawful env H` (hash oracle = the function `H`, `Eq` = key
+equality) for whichever map is hashed into; `InvL cfg H t` for that map; the other side of `==` needs
+only `Inv` (structural) for the pair form and `InvL` (any hash function) for the finite-map form.
+No hypothesis on the allocator, on `Clone` or on destructors: the statements are about `.ok`
+outcomes; the other outcomes are characterised in `ApiBulk.lean`.
 
 On "independently owned" / "unaffected by later changes": the model is value-semantic, a `Raw` value
 cannot alias another one, so independence of clone and source is true by construction in the model
 (`eq_independent` states it for the record). That the REAL code shares nothing between a clone and its
-source is not a theorem about the model: it is covered by the correspondence check (profiles that
-mutate source and clone after `clone` / `clone_from` and compare both against the model), and by
-the drop accounting (identities of clones are the oracle's fresh answers: `eq_cloneList_ids`).
+source is not a theorem about the model: that half is the business of the correspondence check
+(histories that mutate source and clone after `clone` / `clone_from`, compared against the model),
+supported by the drop accounting (identities of clones are the oracle's fresh answers:
+`eq_cloneList_ids`, so a shared object would show up as a double drop in the event log).
 -/
 import Batteries.Data.List.Perm
 import Hb.Proofs.ApiBulk
 import Hb.Proofs.Refine
+import Hb.Model.Set
+import Hb.Model.Table
 namespace Hb
 
 variable {cfg : Cfg}
@@ -193,5 +205,886 @@ theorem eq_filter_mem_of_sublist {α} [DecidableEq α] {s l : List α} (hs : s.S
     have hne : x ≠ a := fun h => hn.1 (h ▸ hx)
     simp only [hne, false_or]
     rw [ih hn.2]
+
+/-! ## B. `cloneList` -/
+
+theorem eq_cloneList_length_le (env : Env) : ∀ (l : List Elem) (cc : Nat),
+    (cloneList env cc l).length ≤ l.length := by
+  intro l
+  induction l with
+  | nil => intro cc; simp [cloneList]
+  | cons a es ih =>
+    intro cc
+    simp only [cloneList]
+    cases env.clone cc a with
+    | none => simp
+    | some p => simpa using ih (cc + 1)
+
+/-- Clones made so far: element `i` of the result is element `i` of the input with the identities the
+    clone oracle returned for call `cc + i`. -/
+theorem eq_cloneList_mem (env : Env) : ∀ (l : List Elem) (cc : Nat) (c : Elem),
+    c ∈ cloneList env cc l → ∃ i e, l[i]? = some e ∧ env.clone (cc + i) e = some (c.kid, c.vid) ∧
+      c = { e with kid := c.kid, vid := c.vid } := by
+  intro l
+  induction l with
+  | nil => intro cc c h; simp [cloneList] at h
+  | cons a es ih =>
+    intro cc c h
+    simp only [cloneList] at h
+    cases hcl : env.clone cc a with
+    | none => rw [hcl] at h; cases h
+    | some p =>
+      obtain ⟨kid, vid⟩ := p
+      rw [hcl] at h
+      rcases List.mem_cons.mp h with rfl | h
+      · exact ⟨0, a, rfl, hcl, rfl⟩
+      · obtain ⟨i, e, h1, h2, h3⟩ := ih (cc + 1) c h
+        refine ⟨i + 1, e, by simpa using h1, ?_, h3⟩
+        rw [show cc + (i + 1) = cc + 1 + i by omega]; exact h2
+
+/-- If no `Clone` call panicked (the result is as long as the input): position-wise description. -/
+theorem eq_cloneList_get (env : Env) : ∀ (l : List Elem) (cc : Nat),
+    (cloneList env cc l).length = l.length →
+    ∀ i e, l[i]? = some e → ∃ kid vid, env.clone (cc + i) e = some (kid, vid) ∧
+      (cloneList env cc l)[i]? = some { e with kid := kid, vid := vid } := by
+  intro l
+  induction l with
+  | nil => intro cc _ i e h; simp at h
+  | cons a es ih =>
+    intro cc hlen i e hi
+    simp only [cloneList] at hlen ⊢
+    cases hcl : env.clone cc a with
+    | none => rw [hcl] at hlen; simp at hlen
+    | some p =>
+      obtain ⟨kid, vid⟩ := p
+      rw [hcl] at hlen
+      simp only [List.length_cons, Nat.add_right_cancel_iff] at hlen
+      cases i with
+      | zero =>
+        simp only [List.getElem?_cons_zero, Option.some.injEq] at hi
+        subst hi
+        exact ⟨kid, vid, hcl, rfl⟩
+      | succ j =>
+        simp only [List.getElem?_cons_succ] at hi ⊢
+        rw [show cc + (j + 1) = cc + 1 + j by omega]
+        exact ih (cc + 1) hlen j e hi
+
+/-- Anything that does not look at the identities is unchanged by cloning. -/
+theorem eq_cloneList_map {α} (f : Elem → α) (hf : ∀ e kid vid, f { e with kid := kid, vid := vid } = f e)
+    (env : Env) : ∀ (l : List Elem) (cc : Nat), (cloneList env cc l).length = l.length →
+    (cloneList env cc l).map f = l.map f := by
+  intro l
+  induction l with
+  | nil => intro cc _; rfl
+  | cons a es ih =>
+    intro cc hlen
+    simp only [cloneList] at hlen ⊢
+    cases hcl : env.clone cc a with
+    | none => rw [hcl] at hlen; simp at hlen
+    | some p =>
+      obtain ⟨kid, vid⟩ := p
+      rw [hcl] at hlen
+      simp only [List.length_cons, Nat.add_right_cancel_iff] at hlen
+      simp only [List.map_cons, hf, ih (cc + 1) hlen]
+
+/-- Clones have the same keys and the same payloads, position by position. -/
+theorem eq_cloneList_kv (env : Env) (l : List Elem) (cc : Nat)
+    (hlen : (cloneList env cc l).length = l.length) :
+    (cloneList env cc l).map (fun e => (e.k, e.v)) = l.map (fun e => (e.k, e.v)) :=
+  eq_cloneList_map _ (fun _ _ _ => rfl) env l cc hlen
+
+theorem eq_cloneList_keys (env : Env) (l : List Elem) (cc : Nat)
+    (hlen : (cloneList env cc l).length = l.length) :
+    (cloneList env cc l).map (·.k) = l.map (·.k) :=
+  eq_cloneList_map _ (fun _ _ _ => rfl) env l cc hlen
+
+theorem eq_cloneList_ids_aux (env : Env) (cc : Nat) : ∀ (l : List Elem) (n : Nat),
+    (cloneList env (cc + n) l).length = l.length →
+    (cloneList env (cc + n) l).map (fun e => (e.kid, e.vid)) =
+      (l.zipIdx n).filterMap fun p => env.clone (cc + p.2) p.1 := by
+  intro l
+  induction l with
+  | nil => intro n _; rfl
+  | cons a es ih =>
+    intro n hlen
+    simp only [cloneList] at hlen ⊢
+    cases hcl : env.clone (cc + n) a with
+    | none => rw [hcl] at hlen; simp at hlen
+    | some p =>
+      obtain ⟨kid, vid⟩ := p
+      rw [hcl] at hlen
+      simp only [List.length_cons, Nat.add_right_cancel_iff] at hlen
+      have := ih (n + 1) (by rw [← Nat.add_assoc]; exact hlen)
+      rw [← Nat.add_assoc] at this
+      simp only [List.map_cons, List.zipIdx_cons, List.filterMap_cons, hcl, this]
+
+/-- The identities of the clones are exactly the clone oracle's answers, call `cc + position`. -/
+theorem eq_cloneList_ids (env : Env) (l : List Elem) (cc : Nat)
+    (hlen : (cloneList env cc l).length = l.length) :
+    (cloneList env cc l).map (fun e => (e.kid, e.vid)) =
+      l.zipIdx.filterMap fun p => env.clone (cc + p.2) p.1 :=
+  eq_cloneList_ids_aux env cc l 0 hlen
+
+/-- If the oracle only hands out identities that are not in use (`used`), no clone shares a key or
+    value object with an element whose objects are in use — in particular with the source's. -/
+theorem eq_cloneList_fresh (env : Env) (l : List Elem) (cc : Nat) (used : Nat → Prop)
+    (hfresh : ∀ c e kid vid, env.clone c e = some (kid, vid) → ¬ used kid ∧ ¬ used vid) :
+    ∀ c ∈ cloneList env cc l, ∀ x : Elem, used x.kid → used x.vid →
+      c.kid ≠ x.kid ∧ c.vid ≠ x.vid ∧ c.kid ≠ x.vid ∧ c.vid ≠ x.kid := by
+  intro c hc x hk hv
+  obtain ⟨i, e, _, h2, _⟩ := eq_cloneList_mem env l cc c hc
+  obtain ⟨f1, f2⟩ := hfresh _ _ _ _ h2
+  exact ⟨fun h => f1 (h ▸ hk), fun h => f2 (h ▸ hv), fun h => f1 (h ▸ hv), fun h => f2 (h ▸ hk)⟩
+
+/-- If the oracle never hands out the same identity at two different calls, the clones' key objects
+    are pairwise distinct, and so are their value objects. -/
+theorem eq_cloneList_nodup (env : Env)
+    (hinj : ∀ c c' e e' p p', env.clone c e = some p → env.clone c' e' = some p' → c ≠ c' →
+      p.1 ≠ p'.1 ∧ p.2 ≠ p'.2) :
+    ∀ (l : List Elem) (cc : Nat), ((cloneList env cc l).map (·.kid)).Nodup ∧
+      ((cloneList env cc l).map (·.vid)).Nodup := by
+  intro l
+  induction l with
+  | nil => intro cc; simp [cloneList]
+  | cons a es ih =>
+    intro cc
+    simp only [cloneList]
+    cases hcl : env.clone cc a with
+    | none => simp
+    | some p =>
+      obtain ⟨kid, vid⟩ := p
+      simp only [List.map_cons, List.nodup_cons]
+      refine ⟨⟨?_, (ih (cc + 1)).1⟩, ⟨?_, (ih (cc + 1)).2⟩⟩
+      · intro hm
+        obtain ⟨c, hc, hk⟩ := List.mem_map.mp hm
+        obtain ⟨i, e, _, h2, _⟩ := eq_cloneList_mem env es (cc + 1) c hc
+        exact (hinj _ _ _ _ _ _ h2 hcl (by omega)).1 hk
+      · intro hm
+        obtain ⟨c, hc, hk⟩ := List.mem_map.mp hm
+        obtain ⟨i, e, _, h2, _⟩ := eq_cloneList_mem env es (cc + 1) c hc
+        exact (hinj _ _ _ _ _ _ h2 hcl (by omega)).2 hk
+
+/-! ## C. `InvL` of clones -/
+
+/-- The hash-dependent invariant only depends on the control bytes and on the KEYS in bucket order: a
+    valid table with the control bytes of `src` and, bucket by bucket, the keys of `src` satisfies
+    `InvL` for the same hash function. -/
+theorem eq_invL_transfer (hc : CfgOk cfg) {H : Nat → Nat} {src nt : Raw} (hs : InvL cfg H src)
+    (hn : Inv cfg nt) (hm : nt.mask = src.mask) (hct : nt.ctrl = src.ctrl)
+    (hk : nt.elems.map (·.k) = src.elems.map (·.k)) : InvL cfg H nt := by
+  have hfl : nt.fullList = src.fullList := ab_fullList_congr hm hct
+  rw [ab_elems_map hc hn, ab_elems_map hc hs.toInv, hfl, List.map_map, List.map_map] at hk
+  have hkey : ∀ i ∈ src.fullList, (ab_elem nt i).k = (ab_elem src i).k := List.map_inj_left.mp hk
+  have hslot : ∀ (i : Nat) (e : Elem), nt.slots[i]?.join = some e →
+      ∃ e0, src.slots[i]?.join = some e0 ∧ e0.k = e.k := by
+    intro i e he
+    have he' : ab_slot nt i = some e := he
+    have hlt := ab_slot_lt he'
+    have hib : i < nt.buckets := Nat.lt_of_lt_of_le hlt hn.ab_slots_le
+    have hfull : isFull (nt.ctrlAt i) = true := by
+      cases hf : isFull (nt.ctrlAt i) with
+      | true => rfl
+      | false => rw [hn.ab_dead hf] at he'; cases he'
+    have hin : i ∈ src.fullList := by rw [← hfl]; exact (mem_fullList _ _).2 ⟨hib, hfull⟩
+    have h0 : ab_slot src i = some (ab_elem src i) := hs.toInv.ab_full hc hin
+    refine ⟨ab_elem src i, h0, ?_⟩
+    rw [← hkey i hin, ab_elem_of he']
+  refine InvL.of_lpart hn ⟨?_, ?_, ?_⟩
+  · intro i e he
+    obtain ⟨e0, h0, hk0⟩ := hslot i e he
+    rw [ab_ctrlAt_congr hct, ← hk0]
+    exact hs.tag i e0 h0
+  · intro i e he
+    obtain ⟨e0, h0, hk0⟩ := hslot i e he
+    rw [Reachable_congr hm hct, ← hk0]
+    exact hs.reach i e0 h0
+  · intro i j e e2 h1 h2 hkk
+    obtain ⟨e0, h0, hk0⟩ := hslot i e h1
+    obtain ⟨e0', h0', hk0'⟩ := hslot j e2 h2
+    exact hs.nodup i j e0 e0' h0 h0' (by rw [hk0, hk0', hkk])
+
+/-- **`clone()` keeps the hash-dependent invariant**: the clone of a table in which every key sits
+    where its hash says is such a table, for the same hash function. -/
+theorem eq_clone_invL (hc : CfgOk cfg) (env : Env) {H : Nat → Nat} (w : World) (h : RI cfg H w.t)
+    {nt : Raw} {w' : World} (hr : Map.cloneTable cfg env w = .ok (nt, w')) : RI cfg H nt := by
+  have hs := cloneTable_spec hc env w ⟨h.1.toInv, h.2⟩
+  rw [hr] at hs
+  obtain ⟨a1, _, a3, a4, _, _, _, a8, a9, _⟩ := hs
+  refine ⟨eq_invL_transfer hc h.1 a1.1 a3 a4 ?_, a1.2⟩
+  rw [a8] at a9 ⊢
+  exact eq_cloneList_keys env _ _ a9
+
+/-! #### `clone_from`: the control bytes -/
+
+theorem eq_cloneLoop_ctrl (env : Env) (src : Raw) :
+    ∀ (idxs : List Nat) (dst : Raw) (w : World) (dst' : Raw) (w' : World),
+      Map.cloneLoop env src idxs dst w = .ok (dst', w') → dst'.ctrl = dst.ctrl := by
+  intro idxs
+  induction idxs with
+  | nil =>
+    intro dst w dst' w' h
+    simp only [Map.cloneLoop] at h
+    cases h; rfl
+  | cons i rest ih =>
+    intro dst w dst' w' h
+    simp only [Map.cloneLoop] at h
+    split at h
+    · cases h
+    · split at h
+      · cases h
+      · split at h
+        · have := ih _ _ _ _ h
+          exact this
+        · cases h
+        · cases h
+
+theorem eq_cfStep3_ctrl (env : Env) (src : Raw) (w4 w' : World)
+    (h : cfStep3 cfg env src w4 = .ok w') : w'.t.ctrl = src.ctrl := by
+  simp only [cfStep3] at h
+  split at h
+  · cases h
+  · split at h
+    · rename_i dst w5 heq
+      cases h
+      have := eq_cloneLoop_ctrl env src _ _ _ _ _ heq
+      exact this
+    · cases h
+    · cases h
+    · cases h
+
+/-- `clone_from` copies the source's control bytes, whatever the target was. -/
+theorem eq_cloneFrom_ctrl (hc : CfgOk cfg) (env : Env) (src : Raw) (w w' : World) (h : TInvB cfg w.t)
+    (hs : TInvB cfg src) (hr : Map.cloneFrom cfg env src w = .ok w') : w'.t.ctrl = src.ctrl := by
+  rw [cloneFrom_eq] at hr
+  split at hr
+  · rename_i hse
+    have hd := dropInnerTable_spec hc env w.t { w with t := Raw.new cfg.W } h
+    rw [hr] at hd
+    have ht : w'.t = Raw.new cfg.W := hd.1
+    have hal : src.alloc = false := by
+      have := hs.1.isEmptySingleton_eq
+      rw [hse] at this
+      cases hx : src.alloc with
+      | false => rfl
+      | true => rw [hx] at this; cases this
+    rcases hs.1.geom with hx | ha
+    · rw [ht, hx.2.2.1]; rfl
+    · rw [ha.1] at hal; cases hal
+  · split at hr
+    · cases hr
+    · cases hr
+    · cases hr
+    · cases hr
+    · split at hr
+      · exact eq_cfStep3_ctrl env src _ _ hr
+      · rename_i hne
+        exact absurd hr (hne _)
+
+/-- **`clone_from` into ANY target keeps the hash-dependent invariant of the source** (for the
+    source's hash function; the target's old contents and hash-dependent state are irrelevant). -/
+theorem eq_cloneFrom_invL (hc : CfgOk cfg) (env : Env) {H : Nat → Nat} (src : Raw) (w w' : World)
+    (h : TInvB cfg w.t) (hs : RI cfg H src) (hr : Map.cloneFrom cfg env src w = .ok w') :
+    RI cfg H w'.t := by
+  have hsp := cloneFrom_spec hc env src w h ⟨hs.1.toInv, hs.2⟩
+  have hct := eq_cloneFrom_ctrl hc env src w w' h ⟨hs.1.toInv, hs.2⟩ hr
+  rw [hr] at hsp
+  obtain ⟨a1, a2, _, a4, a5, _⟩ := hsp
+  refine ⟨eq_invL_transfer hc hs.1 a1.1 a2 hct ?_, a1.2⟩
+  rw [a4] at a5 ⊢
+  exact eq_cloneList_keys env _ _ a5
+
+/-! ## D. `==` for lawful environments -/
+
+/-- The comparison loop of `PartialEq` over the buckets `idxs` of `a`, against a table `b` whose
+    hasher / `Eq` are lawful: it returns, and the answer is `true` exactly when every listed element of
+    `a` has an element of `b` with the same key and an equal value. -/
+theorem eq_eqLoop_lawful (hc : CfgOk cfg) {env : Env} {H : Nat → Nat} (hl : Lawful env H) (a b : Raw)
+    (hb : InvL cfg H b) :
+    ∀ (idxs : List Nat) (w : World), (∀ i ∈ idxs, ∃ e, ab_slot a i = some e) →
+      ∃ r w', Map.eqLoop cfg env a b idxs w = .ok (r, w') ∧ w'.log = w.log ∧
+        (r = true ↔ ∀ i ∈ idxs, ∃ e' ∈ b.elems, e'.k = (ab_elem a i).k ∧ e'.v = (ab_elem a i).v) := by
+  intro idxs
+  induction idxs with
+  | nil =>
+    intro w _
+    exact ⟨true, w, rfl, rfl, by simp⟩
+  | cons i rest ih =>
+    intro w hsl
+    obtain ⟨e, he⟩ := hsl i List.mem_cons_self
+    have hei := ab_elem_of he
+    rw [Map.eqLoop, ab_slotGet he]
+    simp only
+    obtain ⟨r, w1, hg, _, hlog, h1, h2⟩ := rf_getInner_spec hc hl e.k { w with t := b } hb
+    have h1' : ∀ idx, r = some idx ↔ ∃ x, b.slots[idx]?.join = some x ∧ x.k = e.k := h1
+    have h2' : r = none ↔ ∀ (j : Nat) (x : Elem), b.slots[j]?.join = some x → x.k ≠ e.k := h2
+    have hlog1 : w1.log = w.log := hlog
+    rw [hg]
+    cases r with
+    | none =>
+      refine ⟨false, w1, rfl, hlog1, ⟨(fun h => by cases h), fun hall => ?_⟩⟩
+      obtain ⟨e', hm, hk, _⟩ := hall i List.mem_cons_self
+      obtain ⟨j, hj⟩ := mem_elems.mp hm
+      rw [hei] at hk
+      exact absurd hk (h2'.mp rfl j e' hj)
+    | some j =>
+      obtain ⟨e', hj, hk⟩ := (h1' j).mp rfl
+      simp only
+      rw [slotGet_ok hj]
+      simp only
+      by_cases hv : e.v = e'.v
+      · rw [if_pos hv]
+        obtain ⟨r2, w', hrun, hlog', hiff⟩ := ih w1 (fun k hk => hsl k (List.mem_cons_of_mem _ hk))
+        refine ⟨r2, w', hrun, hlog'.trans hlog1, ?_⟩
+        rw [hiff]
+        constructor
+        · intro hall k hkm
+          rcases List.mem_cons.mp hkm with rfl | hkm
+          · exact ⟨e', mem_elems.mpr ⟨j, hj⟩, by rw [hei]; exact hk, by rw [hei]; exact hv.symm⟩
+          · exact hall k hkm
+        · intro hall k hkm
+          exact hall k (List.mem_cons_of_mem _ hkm)
+      · rw [if_neg hv]
+        refine ⟨false, w1, rfl, hlog1, ⟨(fun h => by cases h), fun hall => ?_⟩⟩
+        obtain ⟨e2, hm, hk2, hv2⟩ := hall i List.mem_cons_self
+        obtain ⟨j', hj'⟩ := mem_elems.mp hm
+        rw [hei] at hk2 hv2
+        have hjj : j' = j := hb.nodup j' j e2 e' hj' hj (hk2.trans hk.symm)
+        subst hjj
+        rw [hj] at hj'
+        cases hj'
+        exact absurd hv2.symm hv
+
+/-- **`PartialEq for HashMap`** with a lawful hasher / `Eq` on the right-hand map `b` (the only map
+    that is hashed into): `a == b` returns (no panic, fault or abort), leaves both maps and the log
+    alone, and is `true` exactly when the lengths agree and every `(k, v)` of `a` occurs in `b`.
+    `a` only needs the structural invariant; layout, capacity, tombstones and the history of either
+    map do not matter, nor does `a`'s hasher. -/
+theorem eq_spec (hc : CfgOk cfg) {env : Env} {H : Nat → Nat} (hl : Lawful env H) (a b : Raw) (w : World)
+    (ha : Inv cfg a) (hb : InvL cfg H b) :
+    ∃ r w', Map.mapEq cfg env b { w with t := a } = .ok (r, w') ∧ w'.t = a ∧ w'.log = w.log ∧
+      (r = true ↔ a.elems.length = b.elems.length ∧
+        ∀ e ∈ a.elems, ∃ e' ∈ b.elems, e'.k = e.k ∧ e'.v = e.v) := by
+  have hla := ab_elems_length hc ha
+  have hlb := ab_elems_length hc hb.toInv
+  by_cases hit : a.items ≠ b.items
+  · have hres : Map.mapEq cfg env b { w with t := a } = .ok (false, { w with t := a }) := by
+      simp only [Map.mapEq]
+      rw [if_pos hit]
+    refine ⟨false, { w with t := a }, hres, rfl, rfl, ⟨(fun h => by cases h), fun hx => ?_⟩⟩
+    rw [hla, hlb] at hx
+    exact absurd hx.1 hit
+  · have hit' : a.items = b.items := by
+      by_contra hne; exact hit hne
+    obtain ⟨r, w', hrun, hlog, hiff⟩ :=
+      eq_eqLoop_lawful hc hl a b hb a.fullList { w with t := a } (fun i hi => ⟨_, ha.ab_full hc hi⟩)
+    have hres : Map.mapEq cfg env b { w with t := a } = .ok (r, { w' with t := a }) := by
+      simp only [Map.mapEq]
+      rw [if_neg hit, fullIndices_spec hc ha]
+      simp only [hrun]
+    refine ⟨r, { w' with t := a }, hres, rfl, hlog, ?_⟩
+    rw [hiff, hla, hlb, ab_elems_map hc ha]
+    constructor
+    · intro hall
+      refine ⟨hit', ?_⟩
+      intro e he
+      obtain ⟨i, hi, rfl⟩ := List.mem_map.mp he
+      exact hall i hi
+    · rintro ⟨_, hall⟩ i hi
+      exact hall _ (List.mem_map_of_mem hi)
+
+/-! ### the finite map `k ↦ v` -/
+
+theorem eq_mem_keys_iff {l : AL} {k : Nat} : k ∈ l.map (·.k) ↔ AL.find l k ≠ none := by
+  rw [Ne, AL.find_none_iff, List.mem_map]
+  constructor
+  · rintro ⟨e, he, hk⟩ hall; exact hall e he hk
+  · intro hn
+    by_contra hx
+    exact hn (fun e he hk => hx ⟨e, he, hk⟩)
+
+/-- For key-distinct lists: "same length and every pair of `l1` occurs in `l2`" says that both are the
+    same finite map from keys to values (order, identities of the objects do not matter). -/
+theorem eq_finmap_iff {l1 l2 : AL} (h1 : l1.keysNodup) (h2 : l2.keysNodup) :
+    (l1.length = l2.length ∧ ∀ e ∈ l1, ∃ e' ∈ l2, e'.k = e.k ∧ e'.v = e.v) ↔
+    ∀ k, (AL.find l1 k).map (·.v) = (AL.find l2 k).map (·.v) := by
+  constructor
+  · rintro ⟨hlen, hinc⟩ k
+    have hsub : l1.map (·.k) ⊆ l2.map (·.k) := by
+      intro x hx
+      obtain ⟨e, he, rfl⟩ := List.mem_map.mp hx
+      obtain ⟨e', he', hk, _⟩ := hinc e he
+      exact List.mem_map.mpr ⟨e', he', hk⟩
+    have hperm : (l1.map (·.k)).Perm (l2.map (·.k)) :=
+      (List.subperm_of_subset h1 hsub).perm_of_length_le (by simp [hlen])
+    cases hf : AL.find l1 k with
+    | none =>
+      have hk1 : ¬ k ∈ l1.map (·.k) := fun hm => eq_mem_keys_iff.mp hm hf
+      have hk2 : ¬ k ∈ l2.map (·.k) := fun hm => hk1 (hperm.mem_iff.mpr hm)
+      have : AL.find l2 k = none := by
+        by_contra hne
+        exact hk2 (eq_mem_keys_iff.mpr hne)
+      rw [this]
+    | some e =>
+      obtain ⟨he, hk⟩ := (AL.find_some_iff h1).mp hf
+      obtain ⟨e', he', hk', hv⟩ := hinc e he
+      have : AL.find l2 k = some e' := (AL.find_some_iff h2).mpr ⟨he', hk'.trans hk⟩
+      rw [this]
+      simp [hv]
+  · intro hall
+    have hnone : ∀ k, AL.find l1 k = none ↔ AL.find l2 k = none := by
+      intro k
+      have := hall k
+      constructor
+      · intro h; rw [h] at this; simpa using this.symm
+      · intro h; rw [h] at this; simpa using this
+    have hperm : (l1.map (·.k)).Perm (l2.map (·.k)) := by
+      rw [List.perm_ext_iff_of_nodup h1 h2]
+      intro k
+      rw [eq_mem_keys_iff, eq_mem_keys_iff, Ne, Ne, hnone]
+    refine ⟨by simpa using hperm.length_eq, ?_⟩
+    intro e he
+    have hf : AL.find l1 e.k = some e := (AL.find_some_iff h1).mpr ⟨he, rfl⟩
+    have := hall e.k
+    rw [hf] at this
+    simp only [Option.map_some] at this
+    obtain ⟨e', hf', hv⟩ := Option.map_eq_some_iff.mp this.symm
+    obtain ⟨he', hk'⟩ := (AL.find_some_iff h2).mp hf'
+    exact ⟨e', he', hk', hv⟩
+
+/-- **`==` is equality of the finite maps `k ↦ v`.** `a` and `b` may have been built by different
+    histories, have different capacities, tombstones and iteration orders, and differently seeded
+    hashers (`Ha`, `Hb`; only `b`'s hasher is called, through `env`). -/
+theorem eq_spec_finmap (hc : CfgOk cfg) {env : Env} {Ha Hb : Nat → Nat} (hl : Lawful env Hb) (a b : Raw)
+    (w : World) (ha : InvL cfg Ha a) (hb : InvL cfg Hb b) :
+    ∃ r w', Map.mapEq cfg env b { w with t := a } = .ok (r, w') ∧ w'.t = a ∧ w'.log = w.log ∧
+      (r = true ↔ ∀ k, (AL.find a.elems k).map (·.v) = (AL.find b.elems k).map (·.v)) := by
+  obtain ⟨r, w', h1, h2, h3, h4⟩ := eq_spec hc hl a b w ha.toInv hb
+  exact ⟨r, w', h1, h2, h3, h4.trans (eq_finmap_iff (elems_keysNodup ha) (elems_keysNodup hb))⟩
+
+/-- **`==` is symmetric**: `a == b` (look-ups in `b` with `b`'s hasher) and `b == a` (look-ups in `a`
+    with `a`'s hasher) both return, with the same Boolean. -/
+theorem eq_symm (hc : CfgOk cfg) {envA envB : Env} {Ha Hb : Nat → Nat} (hlA : Lawful envA Ha)
+    (hlB : Lawful envB Hb) (a b : Raw) (w1 w2 : World) (ha : InvL cfg Ha a) (hb : InvL cfg Hb b) :
+    ∃ r w1' w2', Map.mapEq cfg envB b { w1 with t := a } = .ok (r, w1') ∧
+      Map.mapEq cfg envA a { w2 with t := b } = .ok (r, w2') := by
+  obtain ⟨r1, w1', h1, _, _, e1⟩ := eq_spec_finmap hc hlB a b w1 ha hb
+  obtain ⟨r2, w2', h2, _, _, e2⟩ := eq_spec_finmap hc hlA b a w2 hb ha
+  have : r1 = r2 := by
+    rw [Bool.eq_iff_iff, e1, e2]
+    exact ⟨fun h k => (h k).symm, fun h k => (h k).symm⟩
+  subst this
+  exact ⟨r1, w1', w2', h1, h2⟩
+
+/-! ### `PartialEq for HashSet` -/
+
+theorem eq_elemsOf (hc : CfgOk cfg) {t : Raw} (h : Inv cfg t) : Set.elemsOf cfg t = .ok t.elems := by
+  have hfold : ∀ (F : Nat → Except String (List Elem) → Except String (List Elem)),
+      (∀ i l e, slotGet t i = .ok e → F i (.ok l) = .ok (e :: l)) →
+      ∀ idxs : List Nat, (∀ i ∈ idxs, ab_slot t i = some (ab_elem t i)) →
+      idxs.foldr F (Except.ok []) = .ok (idxs.map (ab_elem t)) := by
+    intro F hF idxs
+    induction idxs with
+    | nil => intro _; rfl
+    | cons i rest ih =>
+      intro hsl
+      rw [List.foldr_cons, ih (fun k hk => hsl k (List.mem_cons_of_mem _ hk)),
+        hF _ _ _ (ab_slotGet (hsl i List.mem_cons_self))]
+      rfl
+  simp only [Set.elemsOf, fullIndices_spec hc h]
+  refine (hfold _ ?_ _ (fun i hi => h.ab_full hc hi)).trans (by rw [← ab_elems_map hc h])
+  intro i l e he
+  simp only [he]
+
+/-- `xs.iter().all(|k| b.contains(k))` with a lawful hasher / `Eq` for `b`. -/
+theorem eq_allIn_lawful (hc : CfgOk cfg) {env : Env} {H : Nat → Nat} (hl : Lawful env H) (b : Raw)
+    (hb : InvL cfg H b) :
+    ∀ (xs : List Elem) (w : World), ∃ r w', Set.allIn cfg env b xs w = .ok (r, w') ∧ w'.t = w.t ∧
+      w'.log = w.log ∧ (r = true ↔ ∀ e ∈ xs, ∃ e' ∈ b.elems, e'.k = e.k) := by
+  intro xs
+  induction xs with
+  | nil => intro w; exact ⟨true, w, rfl, rfl, rfl, by simp⟩
+  | cons e rest ih =>
+    intro w
+    obtain ⟨r, w1, hg, _, hlog, h1, h2⟩ := rf_getInner_spec hc hl e.k { w with t := b } hb
+    have h1' : ∀ idx, r = some idx ↔ ∃ x, b.slots[idx]?.join = some x ∧ x.k = e.k := h1
+    have h2' : r = none ↔ ∀ (j : Nat) (x : Elem), b.slots[j]?.join = some x → x.k ≠ e.k := h2
+    have hlog1 : w1.log = w.log := hlog
+    have hci : Set.containsIn cfg env b e.k w = .ok (r.isSome, { w1 with t := w.t }) := by
+      simp only [Set.containsIn, hg]
+    rw [Set.allIn, hci]
+    cases r with
+    | none =>
+      refine ⟨false, _, rfl, rfl, hlog1, ⟨(fun h => by cases h), fun hall => ?_⟩⟩
+      obtain ⟨e', hm, hk⟩ := hall e List.mem_cons_self
+      obtain ⟨j, hj⟩ := mem_elems.mp hm
+      exact absurd hk (h2'.mp rfl j e' hj)
+    | some j =>
+      obtain ⟨e', hj, hk⟩ := (h1' j).mp rfl
+      obtain ⟨r2, w', hrun, ht, hlog', hiff⟩ := ih { w1 with t := w.t }
+      refine ⟨r2, w', hrun, ht, hlog'.trans hlog1, ?_⟩
+      rw [hiff]
+      constructor
+      · intro hall x hx
+        rcases List.mem_cons.mp hx with rfl | hx
+        · exact ⟨e', mem_elems.mpr ⟨j, hj⟩, hk⟩
+        · exact hall x hx
+      · intro hall x hx
+        exact hall x (List.mem_cons_of_mem _ hx)
+
+/-- Same length and key inclusion is equality of the key sets (key-distinct lists). -/
+theorem eq_keyset_iff {l1 l2 : AL} (h1 : l1.keysNodup) (h2 : l2.keysNodup) :
+    (l1.length = l2.length ∧ ∀ e ∈ l1, ∃ e' ∈ l2, e'.k = e.k) ↔
+    ∀ k, k ∈ l1.map (·.k) ↔ k ∈ l2.map (·.k) := by
+  constructor
+  · rintro ⟨hlen, hinc⟩
+    have hsub : l1.map (·.k) ⊆ l2.map (·.k) := by
+      intro x hx
+      obtain ⟨e, he, rfl⟩ := List.mem_map.mp hx
+      obtain ⟨e', he', hk⟩ := hinc e he
+      exact List.mem_map.mpr ⟨e', he', hk⟩
+    have hperm : (l1.map (·.k)).Perm (l2.map (·.k)) :=
+      (List.subperm_of_subset h1 hsub).perm_of_length_le (by simp [hlen])
+    exact fun k => hperm.mem_iff
+  · intro hall
+    have hperm : (l1.map (·.k)).Perm (l2.map (·.k)) :=
+      (List.perm_ext_iff_of_nodup h1 h2).mpr hall
+    refine ⟨by simpa using hperm.length_eq, ?_⟩
+    intro e he
+    obtain ⟨e', he', hk⟩ := List.mem_map.mp ((hall e.k).mp (List.mem_map.mpr ⟨e, he, rfl⟩))
+    exact ⟨e', he', hk⟩
+
+/-- **`PartialEq for HashSet`**: `a == b` returns, changes nothing, and is `true` exactly when both
+    sets hold the same keys (hashers `Ha`, `Hb` may differ; only `b`'s is called). -/
+theorem eq_setEq_spec (hc : CfgOk cfg) {env : Env} {Ha Hb : Nat → Nat} (hl : Lawful env Hb) (a b : Raw)
+    (w : World) (ha : InvL cfg Ha a) (hb : InvL cfg Hb b) :
+    ∃ r w', Set.setEq cfg env b { w with t := a } = .ok (r, w') ∧ w'.t = a ∧ w'.log = w.log ∧
+      (r = true ↔ ∀ k, k ∈ a.elems.map (·.k) ↔ k ∈ b.elems.map (·.k)) := by
+  have hla := ab_elems_length hc ha.toInv
+  have hlb := ab_elems_length hc hb.toInv
+  have hkey := eq_keyset_iff (elems_keysNodup ha) (elems_keysNodup hb)
+  by_cases hit : a.items ≠ b.items
+  · have hres : Set.setEq cfg env b { w with t := a } = .ok (false, { w with t := a }) := by
+      simp only [Set.setEq]
+      rw [if_pos hit]
+    refine ⟨false, _, hres, rfl, rfl, ⟨(fun h => by cases h), fun hx => ?_⟩⟩
+    have := (hkey.mpr hx).1
+    rw [hla, hlb] at this
+    exact absurd this hit
+  · have hit' : a.items = b.items := by
+      by_contra hne; exact hit hne
+    obtain ⟨r, w', hrun, ht, hlog, hiff⟩ := eq_allIn_lawful hc hl b hb a.elems { w with t := a }
+    have hres : Set.setEq cfg env b { w with t := a } = .ok (r, w') := by
+      simp only [Set.setEq]
+      rw [if_neg hit, eq_elemsOf hc ha.toInv]
+      exact hrun
+    refine ⟨r, w', hres, ht, hlog, ?_⟩
+    rw [hiff, ← hkey, hla, hlb]
+    exact ⟨fun h => ⟨hit', h⟩, fun h => h.2⟩
+
+/-- `==` on sets is symmetric. -/
+theorem eq_setEq_symm (hc : CfgOk cfg) {envA envB : Env} {Ha Hb : Nat → Nat} (hlA : Lawful envA Ha)
+    (hlB : Lawful envB Hb) (a b : Raw) (w1 w2 : World) (ha : InvL cfg Ha a) (hb : InvL cfg Hb b) :
+    ∃ r w1' w2', Set.setEq cfg envB b { w1 with t := a } = .ok (r, w1') ∧
+      Set.setEq cfg envA a { w2 with t := b } = .ok (r, w2') := by
+  obtain ⟨r1, w1', h1, _, _, e1⟩ := eq_setEq_spec hc hlB a b w1 ha hb
+  obtain ⟨r2, w2', h2, _, _, e2⟩ := eq_setEq_spec hc hlA b a w2 hb ha
+  have : r1 = r2 := by
+    rw [Bool.eq_iff_iff, e1, e2]
+    exact ⟨fun h k => (h k).symm, fun h k => (h k).symm⟩
+  subst this
+  exact ⟨r1, w1', w2', h1, h2⟩
+
+/-! ### a clone compares equal to its source -/
+
+theorem eq_incl_of_kv {l1 l2 : List Elem}
+    (h : l1.map (fun e => (e.k, e.v)) = l2.map (fun e => (e.k, e.v))) :
+    l1.length = l2.length ∧ ∀ e ∈ l1, ∃ e' ∈ l2, e'.k = e.k ∧ e'.v = e.v := by
+  refine ⟨by simpa using congrArg List.length h, ?_⟩
+  intro e he
+  have hm : (e.k, e.v) ∈ l2.map (fun e => (e.k, e.v)) := by
+    rw [← h]; exact List.mem_map.mpr ⟨e, he, rfl⟩
+  obtain ⟨e', he', hkv⟩ := List.mem_map.mp hm
+  simp only [Prod.mk.injEq] at hkv
+  exact ⟨e', he', hkv.1, hkv.2⟩
+
+/-- Two tables holding the same `(key, value)` pairs bucket by bucket compare equal (the identities of
+    the objects are not looked at). -/
+theorem eq_of_same_kv (hc : CfgOk cfg) {env : Env} {H : Nat → Nat} (hl : Lawful env H) (a b : Raw)
+    (w : World) (ha : Inv cfg a) (hb : InvL cfg H b)
+    (hkv : a.elems.map (fun e => (e.k, e.v)) = b.elems.map (fun e => (e.k, e.v))) :
+    ∃ w', Map.mapEq cfg env b { w with t := a } = .ok (true, w') ∧ w'.t = a ∧ w'.log = w.log := by
+  obtain ⟨r, w', h1, h2, h3, h4⟩ := eq_spec hc hl a b w ha hb
+  have hr : r = true := h4.mpr (eq_incl_of_kv hkv)
+  subst hr
+  exact ⟨w', h1, h2, h3⟩
+
+/-- **`clone()` compares equal to its source**, both ways round. -/
+theorem eq_clone (hc : CfgOk cfg) {env : Env} {H : Nat → Nat} (hl : Lawful env H) (w : World)
+    (h : RI cfg H w.t) {nt : Raw} {w' : World} (hr : Map.cloneTable cfg env w = .ok (nt, w'))
+    (wq : World) :
+    (∃ wf, Map.mapEq cfg env w.t { wq with t := nt } = .ok (true, wf)) ∧
+    (∃ wf, Map.mapEq cfg env nt { wq with t := w.t } = .ok (true, wf)) := by
+  have hnt := eq_clone_invL hc env w h hr
+  have hs := cloneTable_spec hc env w ⟨h.1.toInv, h.2⟩
+  rw [hr] at hs
+  obtain ⟨_, _, _, _, _, _, _, a8, a9, _⟩ := hs
+  have hkv : nt.elems.map (fun e => (e.k, e.v)) = w.t.elems.map (fun e => (e.k, e.v)) := by
+    rw [a8] at a9 ⊢
+    exact eq_cloneList_kv env _ _ a9
+  obtain ⟨w1, e1, _⟩ := eq_of_same_kv hc hl nt w.t wq hnt.1.toInv h.1 hkv
+  obtain ⟨w2, e2, _⟩ := eq_of_same_kv hc hl w.t nt wq h.1.toInv hnt.1 hkv.symm
+  exact ⟨⟨w1, e1⟩, ⟨w2, e2⟩⟩
+
+/-- **After `clone_from(src)` the target compares equal to `src`**, whatever the target held. -/
+theorem eq_cloneFrom (hc : CfgOk cfg) {env : Env} {H : Nat → Nat} (hl : Lawful env H) (src : Raw)
+    (w w' : World) (h : TInvB cfg w.t) (hs : RI cfg H src)
+    (hr : Map.cloneFrom cfg env src w = .ok w') (wq : World) :
+    (∃ wf, Map.mapEq cfg env src { wq with t := w'.t } = .ok (true, wf)) ∧
+    (∃ wf, Map.mapEq cfg env w'.t { wq with t := src } = .ok (true, wf)) := by
+  have hnt := eq_cloneFrom_invL hc env src w w' h hs hr
+  have hsp := cloneFrom_spec hc env src w h ⟨hs.1.toInv, hs.2⟩
+  rw [hr] at hsp
+  obtain ⟨_, _, _, a4, a5, _⟩ := hsp
+  have hkv : w'.t.elems.map (fun e => (e.k, e.v)) = src.elems.map (fun e => (e.k, e.v)) := by
+    rw [a4] at a5 ⊢
+    exact eq_cloneList_kv env _ _ a5
+  obtain ⟨w1, e1, _⟩ := eq_of_same_kv hc hl w'.t src wq hnt.1.toInv hs.1 hkv
+  obtain ⟨w2, e2, _⟩ := eq_of_same_kv hc hl src w'.t wq hs.1.toInv hnt.1 hkv.symm
+  exact ⟨⟨w1, e1⟩, ⟨w2, e2⟩⟩
+
+/-! ## E. `clone_from`: the paths; independence -/
+
+/-- `clone_from` of an unallocated source leaves the unallocated singleton. -/
+theorem eq_cloneFrom_unalloc (hc : CfgOk cfg) (env : Env) (src : Raw) (w w' : World)
+    (h : TInvB cfg w.t) (hs : TInvB cfg src) (hal : src.alloc = false)
+    (hr : Map.cloneFrom cfg env src w = .ok w') : w'.t = Raw.new cfg.W := by
+  have hse := hs.1.isEmptySingleton_eq
+  rw [hal] at hse
+  rw [cloneFrom_eq, hse] at hr
+  simp only [Bool.not_false, if_true] at hr
+  have hd := dropInnerTable_spec hc env w.t { w with t := Raw.new cfg.W } h
+  rw [hr] at hd
+  exact hd.1
+
+/-- Allocator traffic of `clone_from`, path by path. -/
+theorem eq_cfBlockEvs_cases (t src : Raw) (ht : Inv cfg t) (hs : Inv cfg src) :
+    (src.alloc = false → cfBlockEvs cfg t src =
+      (if t.alloc = true then
+        [Ev.free (layoutOf cfg t.buckets).size (layoutOf cfg t.buckets).align] else [])) ∧
+    (src.alloc = true → t.buckets = src.buckets → cfBlockEvs cfg t src = [] ∧ t.alloc = true) ∧
+    (src.alloc = true → t.buckets ≠ src.buckets → cfBlockEvs cfg t src =
+      (if t.alloc = true then
+        [Ev.free (layoutOf cfg t.buckets).size (layoutOf cfg t.buckets).align] else []) ++
+      [Ev.alloc (layoutOf cfg src.buckets).size (layoutOf cfg src.buckets).align]) := by
+  have hb4 : ∀ x : Raw, Inv cfg x → x.alloc = true → x.buckets ≠ 1 := by
+    intro x hx ha
+    obtain ⟨k, hk, hb, _⟩ := IsAllocated.mask_eq (hx.allocated ha)
+    have : 2 ^ 2 ≤ 2 ^ k := Nat.pow_le_pow_right (by decide) hk
+    omega
+  have hb1 : ∀ x : Raw, Inv cfg x → x.alloc = false → x.buckets = 1 := by
+    intro x hx ha
+    rcases hx.geom with h1 | h2
+    · simp [Raw.buckets, h1.2.1]
+    · rw [h2.1] at ha; cases ha
+  refine ⟨fun hal => ?_, fun hal hb => ?_, fun hal hb => ?_⟩
+  · have hsb := hb1 src hs hal
+    cases hta : t.alloc with
+    | false =>
+      have := hb1 t ht hta
+      simp [cfBlockEvs, hsb, this]
+    | true =>
+      have := hb4 t ht hta
+      simp [cfBlockEvs, hsb, this, hal, hta]
+  · refine ⟨by simp [cfBlockEvs, hb], ?_⟩
+    cases hta : t.alloc with
+    | true => rfl
+    | false =>
+      have := hb1 t ht hta
+      exact absurd (hb ▸ this) (hb4 src hs hal)
+  · simp [cfBlockEvs, hb, hal]
+
+/-! #### `HashTable::clone_from` (the default `*self = source.clone()`) -/
+
+/-- `HashTable` has no specialised `clone_from`: the source is cloned first (a panicking `Clone` or a
+    refusing allocator leaves the target untouched), then the old target is dropped — every old element
+    exactly once, its block freed — and the clone moved in; if a destructor of the old target panics
+    the assignment still completes (the target is the clone). The target may be in any state. -/
+theorem eq_tableCloneFrom_spec (hc : CfgOk cfg) (env : Env) (src : Raw) (w : World) (h : TInvB cfg w.t)
+    (hs : TInvB cfg src) :
+    match Table.cloneFrom cfg env src w with
+    | .ok w' => TInvB cfg w'.t ∧ w'.t.mask = src.mask ∧ w'.t.ctrl = src.ctrl ∧ w'.t.alloc = src.alloc ∧
+        w'.t.elems = cloneList env w.cc src.elems ∧ w'.t.elems.length = src.elems.length ∧
+        w'.log = (if w.t.alloc = true then
+              [Ev.free (layoutOf cfg w.t.buckets).size (layoutOf cfg w.t.buckets).align] else []) ++
+            dropEvs cfg w.t.elems.reverse ++
+            ((if src.alloc = true then
+              [Ev.alloc (layoutOf cfg src.buckets).size (layoutOf cfg src.buckets).align] else []) ++ w.log)
+    | .panic c w' => (c = "clone" ∧ w'.t = w.t) ∨
+        (c = "drop" ∧ TInvB cfg w'.t ∧ w'.t.mask = src.mask ∧ w'.t.ctrl = src.ctrl ∧
+          w'.t.elems = cloneList env w.cc src.elems ∧ w'.t.elems.length = src.elems.length)
+    | .abort => src.alloc = true ∧ env.allocOk w.ac = false
+    | .fault _ => False := by
+  have hs1 := cloneTable_spec hc env { w with t := src } hs
+  unfold Table.cloneFrom
+  generalize Map.cloneTable cfg env { w with t := src } = r at hs1 ⊢
+  match r, hs1 with
+  | .ok (nt, w1), ⟨a1, _, a3, a4, _, _, a7, a8, a9, _, a11⟩ =>
+    simp only
+    have hd := dropInnerTable_spec hc env w.t { w1 with t := nt } h
+    generalize dropInnerTable cfg env w.t { w1 with t := nt } = r2 at hd ⊢
+    match r2, hd with
+    | .ok w', ⟨b1, b2, _⟩ =>
+      have ht : w'.t = nt := b1
+      refine ⟨by rw [ht]; exact a1, by rw [ht]; exact a3, by rw [ht]; exact a4, by rw [ht]; exact a7,
+        by rw [ht]; exact a8, by rw [ht]; exact a9, ?_⟩
+      rw [b2]
+      show _ ++ _ ++ w1.log = _
+      rw [a11]
+    | .panic c w', ⟨b1, b2, _⟩ =>
+      have ht : w'.t = nt := b2
+      exact Or.inr ⟨b1, by rw [ht]; exact a1, by rw [ht]; exact a3, by rw [ht]; exact a4,
+        by rw [ht]; exact a8, by rw [ht]; exact a9⟩
+    | .abort, hd => exact hd.elim
+    | .fault _, hd => exact hd.elim
+  | .panic c w', ⟨a1, _⟩ => exact Or.inl ⟨a1, rfl⟩
+  | .abort, hs1 => exact hs1
+  | .fault _, hs1 => exact hs1.elim
+
+/-- `HashTable::clone_from` into any target keeps the source's hash-dependent invariant and gives a
+    table with the source's `(key, payload)` pairs bucket by bucket. -/
+theorem eq_tableCloneFrom_invL (hc : CfgOk cfg) (env : Env) {H : Nat → Nat} (src : Raw) (w w' : World)
+    (h : TInvB cfg w.t) (hs : RI cfg H src) (hr : Table.cloneFrom cfg env src w = .ok w') :
+    RI cfg H w'.t ∧
+    w'.t.elems.map (fun e => (e.k, e.v)) = src.elems.map (fun e => (e.k, e.v)) := by
+  have hsp := eq_tableCloneFrom_spec hc env src w h ⟨hs.1.toInv, hs.2⟩
+  rw [hr] at hsp
+  obtain ⟨a1, a2, a3, _, a5, a6, _⟩ := hsp
+  have hlen : (cloneList env w.cc src.elems).length = src.elems.length := by rw [← a5]; exact a6
+  refine ⟨⟨eq_invL_transfer hc hs.1 a1.1 a2 a3 ?_, a1.2⟩, ?_⟩
+  · rw [a5]; exact eq_cloneList_keys env _ _ hlen
+  · rw [a5]; exact eq_cloneList_kv env _ _ hlen
+
+/-- The model is value-semantic: a pair "source world, clone table" evolves component-wise. Whatever
+    is done to the first collection leaves the second table value alone, and vice versa. (This is
+    true by construction of the model; that the real code shares no memory between a clone and its
+    source is what the correspondence runs check.) -/
+def eq_onFirst (f : World → World) (p : World × Raw) : World × Raw := (f p.1, p.2)
+
+/-- Run `f` on the second collection (the table `p.2`, sharing counters and log with the world). -/
+def eq_onSecond (f : World → World) (p : World × Raw) : World × Raw :=
+  let r := f { p.1 with t := p.2 }
+  ({ r with t := p.1.t }, r.t)
+
+theorem eq_independent (fs : List (World → World)) (p : World × Raw) :
+    (fs.foldl (fun p f => eq_onFirst f p) p).2 = p.2 ∧
+    (fs.foldl (fun p f => eq_onSecond f p) p).1.t = p.1.t := by
+  induction fs generalizing p with
+  | nil => exact ⟨rfl, rfl⟩
+  | cons f fs ih =>
+    simp only [List.foldl_cons]
+    exact ⟨(ih (eq_onFirst f p)).1, (ih (eq_onSecond f p)).2⟩
+
+/-! ## F. non-vacuity -/
+
+/-- Lawful environment for the examples: `H k = k * 2^57 + k` (`rfH`), clones get identities
+    `1000 + call`, `2000 + call`. -/
+def eqExEnv : Env :=
+  { hash := fun _ k => some (rfH k), eq := fun _ q e => some (q == e.k),
+    clone := fun c _ => some (1000 + c, 2000 + c),
+    pred := fun _ e => some (true, e.v), allocOk := fun _ => true, dropPanics := fun _ _ => false }
+
+theorem eqExEnv_lawful : Lawful eqExEnv rfH := ⟨fun _ _ => rfl, fun _ _ _ => rfl⟩
+
+def eqExCfg : Cfg := { ops := Generic.ops }
+
+/-- The table a history leaves (portable scanner), starting from `new()`. -/
+def eqExRun (ops : List MapOp) : Raw :=
+  match Map.run eqExCfg eqExEnv ops { t := Raw.new 8 } with
+  | some (_, w) => w.t
+  | none => Raw.new 8
+
+/-- `{1 ↦ 10, 5 ↦ 50, 2 ↦ 20}` inserted in this order: 4 buckets, keys 1 and 5 collide (iteration
+    order 1, 5, 2), no tombstone. -/
+def eqExA : Raw := eqExRun [.insert ⟨1, 1, 1, 10⟩, .insert ⟨5, 5, 5, 50⟩, .insert ⟨2, 2, 2, 20⟩]
+
+/-- The same three pairs inserted in another order (other key / value objects), followed by six more
+    keys that are removed again: 16 buckets, iteration order 1, 2, 5, different capacity, tombstones. -/
+def eqExB : Raw :=
+  eqExRun [.insert ⟨5, 15, 15, 50⟩, .insert ⟨2, 12, 12, 20⟩, .insert ⟨1, 11, 11, 10⟩,
+    .insert ⟨3, 3, 3, 0⟩, .insert ⟨4, 4, 4, 0⟩, .insert ⟨6, 6, 6, 0⟩, .insert ⟨7, 7, 7, 0⟩,
+    .insert ⟨8, 8, 8, 0⟩, .insert ⟨9, 9, 9, 0⟩,
+    .remove 9, .remove 8, .remove 7, .remove 6, .remove 4, .remove 3]
+
+/-- As `eqExA` with one value changed. -/
+def eqExC : Raw := eqExRun [.insert ⟨1, 1, 1, 10⟩, .insert ⟨5, 5, 5, 51⟩, .insert ⟨2, 2, 2, 20⟩]
+
+/-- Outcome of `a == b` as a number: 1 = `true`, 0 = `false`, 2 = anything else. -/
+def eqExCmp (a b : Raw) : Nat :=
+  match Map.mapEq eqExCfg eqExEnv b { t := a } with
+  | .ok (true, _) => 1
+  | .ok (false, _) => 0
+  | _ => 2
+
+/-- Both tables satisfy the (executable) hash-dependent invariant; they differ in bucket count and
+    iteration order, and `eqExB` has tombstones. -/
+theorem eqEx_tables :
+    invLB eqExCfg rfH eqExA = true ∧ invLB eqExCfg rfH eqExB = true ∧ invLB eqExCfg rfH eqExC = true ∧
+    eqExA.buckets = 4 ∧ eqExB.buckets = 16 ∧ eqExA.items = 3 ∧ eqExB.items = 3 ∧
+    eqExA.elems.map (·.k) = [1, 5, 2] ∧ eqExB.elems.map (·.k) = [1, 2, 5] ∧
+    eqExA.countCtrl (· == DELETED) = 0 ∧ 0 < eqExB.countCtrl (· == DELETED) := by
+  decide +kernel
+
+/-- Same pairs, different insertion order / removal history / capacity: equal, both ways round; one
+    value changed: not equal, both ways round. -/
+theorem eqEx_compare :
+    eqExCmp eqExA eqExB = 1 ∧ eqExCmp eqExB eqExA = 1 ∧ eqExCmp eqExA eqExA = 1 ∧
+    eqExCmp eqExA eqExC = 0 ∧ eqExCmp eqExC eqExA = 0 ∧ eqExCmp eqExB eqExC = 0 ∧
+    eqExCmp eqExC eqExB = 0 := by
+  decide +kernel
+
+/-- `clone` / `clone_from` of the tombstoned table: same pairs, fresh identities, equal to the
+    source; `clone_from` into a target of another size (`eqExC`, 4 buckets) drops the target's three
+    elements and yields a 16-bucket table equal to the source. -/
+theorem eqEx_clone :
+    (match Map.cloneTable eqExCfg eqExEnv { t := eqExB } with
+     | .ok (nt, _) =>
+       nt.elems == [⟨1, 1000, 2000, 10⟩, ⟨2, 1001, 2001, 20⟩, ⟨5, 1002, 2002, 50⟩] &&
+       invLB eqExCfg rfH nt && eqExCmp nt eqExB == 1 && eqExCmp eqExB nt == 1 && eqExCmp nt eqExA == 1
+     | _ => false) = true ∧
+    (match Map.cloneFrom eqExCfg eqExEnv eqExB { t := eqExC } with
+     | .ok w' =>
+       w'.t.elems == [⟨1, 1000, 2000, 10⟩, ⟨2, 1001, 2001, 20⟩, ⟨5, 1002, 2002, 50⟩] &&
+       invLB eqExCfg rfH w'.t && w'.t.buckets == 16 && eqExCmp w'.t eqExB == 1 &&
+       eqExCmp eqExA w'.t == 1 && w'.dc == 3
+     | _ => false) = true := by
+  decide +kernel
+
+#print axioms eq_retainKept_zipIdx
+#print axioms eq_retainKept_pure
+#print axioms eq_cloneList_get
+#print axioms eq_cloneList_ids
+#print axioms eq_cloneList_fresh
+#print axioms eq_cloneList_nodup
+#print axioms eq_invL_transfer
+#print axioms eq_clone_invL
+#print axioms eq_cloneFrom_ctrl
+#print axioms eq_cloneFrom_invL
+#print axioms eq_eqLoop_lawful
+#print axioms eq_spec
+#print axioms eq_finmap_iff
+#print axioms eq_spec_finmap
+#print axioms eq_symm
+#print axioms eq_setEq_spec
+#print axioms eq_setEq_symm
+#print axioms eq_clone
+#print axioms eq_cloneFrom
+#print axioms eq_cloneFrom_unalloc
+#print axioms eq_cfBlockEvs_cases
+#print axioms eq_tableCloneFrom_spec
+#print axioms eq_tableCloneFrom_invL
+#print axioms eq_independent
+#print axioms eqEx_tables
+#print axioms eqEx_compare
+#print axioms eqEx_clone
 
 end Hb
